@@ -123,6 +123,20 @@ Theorem C03_loaded_offsets_are_codepoints : forall (hist : list (option text * l
 Proof. exact doc_roundtrip_hist. Qed.
 Print Assumptions C03_loaded_offsets_are_codepoints.
 
+(* an annotation that is removed from one view and added to another one (Cas.add assigns the sofa of the view
+   unconditionally), or whose sofa is re-assigned, belongs to the view it was given to LAST: after every sequence of
+   add / remove / sofa and offset assignments it is written with the UTF-16 offsets in the text of that view *)
+Theorem C03_moved_annotation_offsets_are_utf16 : forall (hist : list (option text * list (option text))) a ops,
+  let ss := map (fun h => sofa_run (fst h) (snd h)) hist in
+  let v := last_view ops (da_view a) in
+  ann_okb ss (ann_run a ops) = true ->
+  exists t b e, s_text (sofa_of ss v) = Some t /\ last_off ops (da_b a, da_e a) = (Some b, Some e) /\
+    0 <= b <= e /\ e <= Z.of_nat (List.length t) /\
+    write_ann ss (ann_run a ops) = mkDann v (Some (utf16_len (firstn (Z.to_nat b) t)))
+                                            (Some (utf16_len (firstn (Z.to_nat e) t))).
+Proof. exact moved_offsets_are_utf16. Qed.
+Print Assumptions C03_moved_annotation_offsets_are_utf16.
+
 (* ---- non-vacuity: a text with U+1F600, U+10000 and U+10FFFF; "a😀b𐀀c" and the largest code point ---- *)
 Example C03_astral_table :
   let t := [97; 128512; 98; 65536; 99; 1114111]%N in
@@ -164,6 +178,17 @@ Example C03_document :
   ann_okb ss a = true /\ write_ann ss a = mkDann 1 (Some 2) (Some 6) /\
   covered_text ss a = Some [120; 65536; 121]%N /\
   write_ann ss (mkDann 0 (Some 2) (Some 3)) = mkDann 0 (Some 3) (Some 4).
+Proof. cbv zeta. repeat match goal with |- _ /\ _ => split end; vm_compute; reflexivity. Qed.
+
+(* an annotation first indexed in view 0 (text "😀😀ab"), removed, given new offsets and added to view 1 (text "a😀b"):
+   it satisfies ann_okb in its new view and is written with that view's UTF-16 offsets, not with those of view 0 *)
+Example C03_moved_annotation :
+  let hist := [(None, [Some [128512; 128512; 97; 98]%N]); (None, [Some [97; 128512; 98]%N])] in
+  let ss := map (fun h => sofa_run (fst h) (snd h)) hist in
+  let ops := [ARemove; AOff (Some 2) (Some 3); AAdd 1%nat] in
+  let a := ann_run (mkDann 0 (Some 2) (Some 4)) ops in
+  last_view ops 0%nat = 1%nat /\ ann_okb ss a = true /\ write_ann ss a = mkDann 1 (Some 3) (Some 4) /\
+  write_ann ss (mkDann 0 (Some 2) (Some 3)) = mkDann 0 (Some 4) (Some 5).
 Proof. cbv zeta. repeat match goal with |- _ /\ _ => split end; vm_compute; reflexivity. Qed.
 
 (* ================================================================================================================
